@@ -12,15 +12,21 @@ pub struct ChunkedReader {
     /// absolute offsets at which a read must stop (a read never crosses a split point)
     pub splits: Vec<usize>,
     pub reads: usize,
+    /// <= 0 = no fault pending; n > 0 = the n-th read call from now fails once with "injected fault" and delivers nothing
+    /// (shared with clones of the reader and with the driver, which arms it after the reader was opened)
+    pub fault_in: std::sync::Arc<std::sync::atomic::AtomicIsize>,
 }
 impl ChunkedReader {
     pub fn new(data: Vec<u8>, chunks: Vec<usize>, splits: Vec<usize>) -> Self {
-        ChunkedReader { data, pos: 0, chunks, k: 0, splits, reads: 0 }
+        ChunkedReader { data, pos: 0, chunks, k: 0, splits, reads: 0, fault_in: Default::default() }
     }
 }
 impl Read for ChunkedReader {
     fn read(&mut self, buf: &mut [u8]) -> std::io::Result<usize> {
         self.reads += 1;
+        if self.fault_in.load(std::sync::atomic::Ordering::Relaxed) > 0 && self.fault_in.fetch_sub(1, std::sync::atomic::Ordering::Relaxed) == 1 {
+            return Err(std::io::Error::new(std::io::ErrorKind::TimedOut, "injected fault"));
+        }
         let mut n = buf.len().min(self.data.len().saturating_sub(self.pos));
         if !self.chunks.is_empty() {
             let c = self.chunks[self.k % self.chunks.len()].max(1);
